@@ -1192,4 +1192,92 @@ theorem repairTail_cases {dna : List Char} {chk : Option (List Char)} {heap : Na
     simp only [pure, Except.pure, Except.ok.injEq] at h
     subst h; rfl
 
+theorem zip_map_self {α β γ} (f : α → β) (g : α → γ) : ∀ (l : List α),
+    (l.map f).zip (l.map g) = l.map fun x => (f x, g x)
+  | [] => rfl
+  | x :: l => by simp [zip_map_self f g l]
+
+/-- the multi-edit theorem in block form. -/
+theorem multi_core (k : Nat) (s : Mask) (v : Nat) (G0 : List Char) (bs : List Blk)
+    (chk : Option (List Char)) (heap : Nat) (hk : 1 ≤ k) (hs : s.size = 4 ^ k)
+    (hv : s.getD v false = true)
+    (hw : isWalk (inducedAccessor k s) (v : Int) (G0 ++ tailO bs) = true)
+    (hch : Chain k G0.length bs) (hchk : vtMatches (G0 ++ tailO bs) chk = .ok true)
+    (hheap : 1 ≤ heap) (cands : List (List Char)) (stats : RepairStats)
+    (hres : repairDna (inducedAccessor k s) (G0 ++ tailC bs) v k chk true heap = .ok (cands, stats))
+    (hdet : stats.detected = bs.length) : (G0 ++ tailO bs) ∈ cands := by
+  obtain ⟨st', fv, hscan, hfold, htail⟩ := repairDna_ok_inv hres
+  obtain ⟨hle, hgood⟩ := multi_scan k s hs hk (G0 ++ tailC bs) _ bs G0 [] v
+    (Scan.init (G0 ++ tailC bs) v) st' [] [] (by simp) rfl rfl hv hw rfl (by simp [Scan.init]) hch hscan
+  have hd0 : (Scan.init (G0 ++ tailC bs) (v : Int)).detected = 0 := rfl
+  rw [hd0, Nat.zero_add] at hle hgood
+  -- every edit was detected
+  have hcases := repairTail_cases htail
+  have hst' : st'.detected = bs.length := by
+    rcases hcases with ⟨h0, -⟩ | ⟨h1, -⟩
+    · simp only at h0; omega
+    · simp only at h1; omega
+  obtain ⟨A0, items, i1, i2, i3, i4, i5, i6⟩ := hgood hst'
+  simp only [Scan.init, List.append_nil, List.nil_append] at i1 i2 i3
+  -- the fragment sets
+  rw [fragFold_eq, i2, i3, List.reverse_reverse, List.reverse_reverse, zip_map_self] at hfold
+  obtain ⟨sets, e1, e2, e3⟩ := fragFold_items _ k _ hk items _ fv hfold i5
+  simp only [List.nil_append] at e1
+  rcases hcases with ⟨h0, hc⟩ | ⟨-, hmem⟩
+  · exfalso
+    simp only at h0
+    have : sets = [] := List.eq_nil_of_length_eq_zero (by omega)
+    rw [e1, this] at hc
+    simp [fragCount] at hc
+    omega
+  · have hcand : candOf st'.splits.reverse (items.map (·.F)) = G0 ++ tailO bs := by
+      rw [i1, List.reverse_append, List.reverse_reverse]
+      simp only [List.reverse_cons, List.reverse_nil, List.nil_append, List.singleton_append]
+      unfold candOf
+      rw [candOf_items items A0 [], i4]; simp
+    have := hmem (items.map (·.F)) (by rw [e1]; exact e3) (by rw [hcand]; exact hchk)
+    rw [hcand] at this; exact this
+
+/-! ## several edits: from positions to blocks -/
+
+theorem Chain.cons {k p q : Nat} {mid : List Char} {y : Char} {G : List Char} {bs : List Blk}
+    (hp : k ≤ p) (hkind : MidKind true y mid) (hy : (nucIdx y).isSome = true) (hq : q ≤ p + 2)
+    (h1 : p + 2 * k + 1 ≤ G.length) (h2 : bs ≠ [] → p + 3 * k + 2 ≤ G.length)
+    (h : Chain k G.length bs) : Chain k p (⟨mid, y, G.drop q⟩ :: bs) := by
+  refine ⟨hp, hkind, hy, by simp; omega, ?_⟩
+  cases bs with
+  | nil => trivial
+  | cons b bs =>
+    have := h2 (by simp)
+    exact ⟨by simp; omega, h.2⟩
+
+theorem set_block (G R : List Char) (p : Nat) (x : Char) (hp : p < G.length) :
+    (G ++ R).set p x = G.take p ++ x :: (G.drop (p + 1) ++ R) := by
+  rw [List.set_append_left _ _ hp, List.set_eq_take_append_cons_drop, if_pos hp]
+  simp
+
+theorem ins_block (G R : List Char) (p : Nat) (x : Char) (hp : p ≤ G.length) :
+    (G ++ R).take p ++ [x] ++ (G ++ R).drop p = G.take p ++ x :: (G.drop p ++ R) := by
+  rw [List.take_append_of_le_length hp, List.drop_append_of_le_length hp]
+  simp
+
+theorem del_block (G R : List Char) (p : Nat) (hp : p + 1 < G.length) :
+    (G ++ R).eraseIdx p = G.take p ++ G[p + 1] :: (G.drop (p + 2) ++ R) := by
+  rw [List.eraseIdx_append_of_lt_length (by omega), List.eraseIdx_eq_take_drop_succ,
+    List.drop_eq_getElem_cons hp]
+  simp only [List.append_assoc, List.cons_append]
+
+theorem orig_block1 (G R : List Char) (p : Nat) (hp : p < G.length) :
+    G ++ R = G.take p ++ ([G[p]] ++ G.drop (p + 1) ++ R) := by
+  have : G.drop p = G[p] :: G.drop (p + 1) := List.drop_eq_getElem_cons hp
+  conv => lhs; rw [← List.take_append_drop p G, this]
+  simp only [List.append_assoc, List.cons_append, List.nil_append]
+
+theorem orig_block2 (G R : List Char) (p : Nat) (hp : p + 1 < G.length) :
+    G ++ R = G.take p ++ ([G[p], G[p + 1]] ++ G.drop (p + 2) ++ R) := by
+  have e1 : G.drop p = G[p] :: G.drop (p + 1) := List.drop_eq_getElem_cons (by omega)
+  have e2 : G.drop (p + 1) = G[p + 1] :: G.drop (p + 2) := List.drop_eq_getElem_cons hp
+  conv => lhs; rw [← List.take_append_drop p G, e1, e2]
+  simp only [List.append_assoc, List.cons_append, List.nil_append]
+
 end Dsw.RepairEdit
